@@ -24,6 +24,8 @@ import numpy as np
 
 from . import core
 
+import re
+_PID_NAME = re.compile(r"(circuit-\d+)-\d+")
 REPO_SRC = os.path.join(os.environ.get("VERIF_REPO", "/repo"), "src")
 PKG = "htstabilizer"
 
@@ -37,6 +39,12 @@ def fresh_library():
         sys.path.insert(0, REPO_SRC)
     import warnings
     warnings.filterwarnings("ignore")
+    # own the one process-global counter of Qiskit that can leak into library state (auto-generated circuit names)
+    try:
+        from qiskit import QuantumCircuit
+        QuantumCircuit.instances = 0
+    except Exception:      # noqa: BLE001
+        pass
     mods = {}
     for sub in ("stabilizer", "graph", "stabilizer_circuits", "circuit_lookup", "lc_classes", "connectivity_support",
                 "mub_circuits", "tomography", "find_local_clifford_layer", "f2_algebra", "linear_index",
@@ -56,7 +64,12 @@ def ser(o, depth=0):
     """Canonical JSON-able value of a result / argument / piece of global state."""
     if depth > 12:
         return "<deep>"
-    if o is None or isinstance(o, (bool, int, str)):
+    if isinstance(o, str):
+        # Qiskit appends the PID to auto-generated circuit names inside multiprocessing children; the PID is
+        # not part of the library's behaviour, so it is removed from fingerprints (the counter part is owned:
+        # fresh_library() resets it)
+        return _PID_NAME.sub(r"\1", o) if "circuit-" in o else o
+    if o is None or isinstance(o, (bool, int)):
         return o
     if isinstance(o, float):
         return repr(o)
